@@ -322,6 +322,58 @@ if f5: S0["multipleOf"] = m
     return hs
 
 
+def extra_checks(ctx):
+    """E2 sub-claim: float value / float multipleOf on the quarter grid v = k1/4, m = k2/4: the AST->SMT encoding of the
+    CURRENT MultipleOf._validate accepts iff k1 mod k2 == 0 (z3, cvc5 as second opinion).  Thorough tier only."""
+    import json
+    import os
+
+    out = {"obligations": 0, "discharged": 0, "evaluations": 0, "solver_s": 0.0, "violations": [], "harness_errors": [], "lines": [], "report": {}}
+    if ctx.tier != "thorough":
+        return out
+    from vf import e2
+
+    try:
+        ncase, bad = e2.validate_translator()
+        if bad:
+            out["harness_errors"].append(f"E2 translator disagrees with the real function on {bad[:3]}")
+            return out
+        res = e2.grid_obligations(9, 240)
+    except e2.Unsupported as exc:
+        out["harness_errors"].append(f"E2 encoding not applicable to current source of MultipleOf._validate: {exc}")
+        return out
+    out["report"]["quarter_grid"] = res
+    for r in res:
+        out["obligations"] += 1
+        out["evaluations"] += 1
+        out["solver_s"] += r["solver_s"] + r.get("cvc5_s", 0)
+        if r["result"] == "unsat":
+            out["discharged"] += 1
+        elif r["result"] == "sat":
+            exp = r.get("expected_accept")
+            got = r.get("replay")
+            wrong = (got == "return") != bool(exp) or got not in ("return", "raise:ValidationError")
+            if wrong:
+                d = "/verif/replays/C01"
+                os.makedirs(d, exist_ok=True)
+                path = os.path.join(d, "e2-grid-%s.json" % abs(hash(r["query"])))
+                call = "e2_grid_replay(%s, %s, %r)" % (r["counterexample"]["value"], r["counterexample"]["multipleOf"], bool(exp))
+                with open(path, "w") as fh:
+                    json.dump({"property": "C01", "harness": "e2", "call": call, "detail": r}, fh, indent=1)
+                out["violations"].append(("e2:" + r["query"], path, f"{call} -> {got}"))
+            else:
+                out["harness_errors"].append(f"E2 grid counterexample does not reproduce: {r}")
+        else:
+            out["lines"].append(f"  inconclusive (E2): {r['query']} -> {r['result']}")
+    return out
+
+
+def e2_grid_replay(v, m, expected_accept):
+    from vf.e2 import concrete_outcome
+
+    return (concrete_outcome(v, m) == "return") == expected_accept
+
+
 # ---------------------------------------------------------------- known findings (concrete demos)
 def _demo_required_synthetic():
     from vf.common import accepts, parse_s
